@@ -435,11 +435,15 @@ PROPS = {
 # Real-thread stage: groups of mtstress runs (kind, how many, label, arguments). Profiles: 0 mixed
 # buffers; 1 growth (tiny TX ring growing to 1 MiB under small writes: the ring is copied while the
 # writer pushes from another thread); 2 tiny fixed ring with the lost-wake-up snapshot rule; 3 tiny
-# fixed ring, writers / readers polling from their own OS threads with fresh wakers (wake-up oracle).
+# fixed ring, writers / readers polling from their own OS threads with fresh wakers (wake-up oracle);
+# 4 ping: small messages each followed by a flush, polled from an OS thread (same oracle on flush).
+# Every profile also checks, on the hooked snapshots, that the connection task is never registered
+# as waiting for the writer next to bytes in the ring.
 _MIXED_Q = ["--threads", "8", "--pairs", "3", "--conns", "4", "--bytes", "100000", "--rounds", "1"]
 _GROW = ["--threads", "16", "--pairs", "8", "--conns", "6", "--bytes", "300000", "--rounds", "3", "--profile", "1"]
 _TINY = ["--threads", "16", "--pairs", "8", "--conns", "6", "--bytes", "40000", "--rounds", "2", "--profile", "2"]
 _SPIN = ["--threads", "8", "--pairs", "4", "--conns", "2", "--bytes", "20000", "--rounds", "1", "--profile", "3"]
+_PING = ["--threads", "8", "--pairs", "4", "--conns", "2", "--bytes", "10000", "--rounds", "1", "--profile", "4"]
 _GROW_TSAN = ["--threads", "8", "--pairs", "4", "--conns", "4", "--bytes", "200000", "--rounds", "1", "--profile", "1"]
 MT_STAGE = {
     "C01": dict(quick=[("plain", 1, "mixed", _MIXED_Q), ("plain", 6, "growth", _GROW)],
@@ -447,9 +451,11 @@ MT_STAGE = {
                           ("plain", 40, "growth", _GROW),
                           ("tsan", 4, "mixed", ["--threads", "8", "--pairs", "4", "--conns", "6", "--bytes", "400000", "--rounds", "3"]),
                           ("tsan", 4, "growth", _GROW_TSAN)]),
-    "C02": dict(quick=[("plain", 1, "mixed", _MIXED_Q), ("plain", 1, "tiny", _TINY)],
+    "C02": dict(quick=[("plain", 1, "mixed", _MIXED_Q), ("plain", 1, "tiny", _TINY), ("plain", 2, "ping", _PING)],
                 thorough=[("plain", 8, "mixed", ["--threads", "16", "--pairs", "6", "--conns", "6", "--bytes", "200000", "--rounds", "3"]),
                           ("plain", 6, "tiny", _TINY),
+                          ("plain", 10, "ping", _PING),
+                          ("plain", 6, "spin", _SPIN),
                           ("tsan", 2, "mixed", ["--threads", "16", "--pairs", "6", "--conns", "6", "--bytes", "200000", "--rounds", "3"])]),
     "C19": dict(quick=[("plain", 1, "mixed", _MIXED_Q), ("plain", 3, "growth", _GROW), ("plain", 3, "spin", _SPIN)],
                 thorough=[("plain", 6, "mixed", ["--threads", "4", "--pairs", "4", "--conns", "6", "--bytes", "400000", "--rounds", "2"]),
@@ -588,6 +594,10 @@ def run_mt_stage(pid, tier, seed):
         "spin_polls_that_found_the_ring_full": tot("spin_polls_that_found_the_ring_full"),
         "spin_room_after_full_events_checked_for_a_wakeup": tot("spin_room_after_full_events"),
         "spin_wakeups_that_arrived_after_the_next_successful_poll": tot("spin_wakeups_confirmed_late"),
+        "spin_flushes_completed": tot("spin_flushes_completed"),
+        "final_flushes_that_met_the_peers_close": tot("final_flushes_that_met_the_peers_close"),
+        "tx_snapshots_checked_for_a_sleeping_connection_task": tot("tx_snapshots_checked_for_a_sleeping_connection_task"),
+        "snapshots_with_the_connection_task_waiting_next_to_data": tot("snapshots_with_the_connection_task_waiting_next_to_data"),
         "lost_wakeups": tot("lost_wakeups"),
         "max_worker_threads_seen_by_readers": max([int(r.get("worker_threads_seen_by_readers", 0)) for r in runs] or [0]),
         "verdicts": sorted({str(r.get("verdict")) for r in runs}),
